@@ -274,6 +274,10 @@ def dispatch(ctx):
             if ok:
                 v = look(asg[0][4])
                 ok = v == ("arg", 2) or (is_call(v, "from", "to_owned", "to_string", "into") and look(v[2][0]) == ("arg", 2))
+            if not asg:
+                # `value.clone_into(&mut self.field)`: the same store, reusing the allocation
+                ci = [e for e in lf.events if e[0] == "call" and last_seg(e[3]) == "clone_into" and len(e[4][2]) == 2]
+                ok = len(ci) == 1 and look(ci[0][4][2][0]) == ("arg", 2) and self_field(ci[0][4][2][1], field)
             ctx.ob("R17.4", "setter|%s" % hname, ok, "%s stores its argument in self.%s" % (hname, field), f2.loc(0))
 
 
@@ -290,6 +294,10 @@ def add_route(ctx):
                 ent = look(t[1])
                 if c[0] == "eq":
                     occ = c[1] == 0  # Entry::Occupied = 0, Vacant = 1
+                elif c[0] == "ne":
+                    left = {0, 1} - set(c[1])      # `let Entry::Vacant(e) = .. else { .. }`: the else edge is "not Vacant"
+                    if len(left) == 1:
+                        occ = left == {0}
             x = t
             neg = False
             while x[0] == "un" and x[1] == "Not":
